@@ -11,7 +11,7 @@ import (
 var legalPieces = []string{
 	"a", "b", "Z", "0", "9", "x", "y", " ", "  ", "&", "<", ">", "\"", "'", "]]>", "&amp;", "&#x41;", "&lt;", "%41", "%26", "+",
 	"\t", "\n", "\r", "\r\n", "ü", "é", "€", "日本", "𝄞", "😀", "?", "#", "/", ":", "@", "%", "=", ";", ",", "-", "_", ".", "~", "\\", "`", "{", "}", "|",
-	"\u00A0", "\u2028", "\u0085", "\uFFFD", "<!--", "-->", "<![CDATA[", "<?", "?>", "javascript:", "</script>",
+	"\u00A0", "\u2028", "\u0085", "\uFFFD", "\x7f", "\u0080", "\u0092", "\u009f", "O\u0092Brien", "<!--", "-->", "<![CDATA[", "<?", "?>", "javascript:", "</script>",
 }
 
 // LegalString draws a string of legal XML characters with many metacharacters.
@@ -27,7 +27,7 @@ func LegalString(max int) *rapid.Generator[string] {
 }
 
 var hostilePieces = []string{
-	"\x00", "\x01", "\x08", "\x0b", "\x0c", "\x1f", "\x7f", "\uFFFE", "\uFFFF", "\xed\xa0\x80", "\xed\xbf\xbf", "\xff", "\xc0\xaf", "\xe2\x82", "\xf4\x90\x80\x80",
+	"\x00", "\x01", "\x08", "\x0b", "\x0c", "\x1f", "\uFFFE", "\uFFFF", "\xed\xa0\x80", "\xed\xbf\xbf", "\xff", "\xc0\xaf", "\xe2\x82", "\xf4\x90\x80\x80",
 }
 
 // AnyString adds illegal XML characters and invalid UTF-8 to LegalString.
